@@ -94,6 +94,16 @@ def _rand_records0(arg):
         probes = [dc.cand_abs(dc.wire_value(v), dc.is_literal) for v in
                   (dc.rand_value(rnd, dt) for _ in range(6)) if _jsonable(v)]
         recs += dc.equiv_records(dt, probes, {'via': 'random'})
+        if rnd.random() < 0.3:       # a command built from random argument / result types
+            none = {'k': 'none'}
+            cmd = {'k': 'command', 'arg': none if rnd.random() < 0.3 else dt,
+                   'res': none if rnd.random() < 0.4 else dc.deco(dc.rand_type(rnd, rnd.choice((0, 1))), rnd.choice(UNITS), '%g', True)}
+            recs += dc.equiv_records(cmd, [], {'via': 'random'})
+            plain = {'k': 'command', 'arg': none if cmd['arg']['k'] == 'none' else dc.rand_type(rnd, rnd.choice((0, 1))),
+                     'res': none if cmd['res']['k'] == 'none' else dc.rand_type(rnd, 0)}
+            other = _vary(rnd, plain)
+            recs.append(dc.compat_record(plain, other, {'via': 'random'}))
+            recs.append(dc.compat_record(other, plain, {'via': 'random'}))
         # pairs: unrelated, and related by widening / narrowing one side
         a = dc.rand_type(rnd, rnd.choice((0, 0, 1, 2)))
         b = _vary(rnd, a) if rnd.random() < 0.7 else dc.rand_type(rnd, rnd.choice((0, 0, 1, 2)))
@@ -163,6 +173,11 @@ def _vary(rnd, a):
         return dict(a, el=_vary(rnd, a['el']), minlen=lo, maxlen=max(lo, a['maxlen'] + rnd.choice((-1, 0, 0, 1)), 1))
     if k == 'tuple':
         return dict(a, els=[_vary(rnd, e) for e in a['els']])
+    if k == 'command':
+        none = {'k': 'none'}
+        arg = a['arg'] if a['arg']['k'] == 'none' and rnd.random() < 0.8 else (none if rnd.random() < 0.1 else _vary(rnd, a['arg']) if a['arg']['k'] != 'none' else {'k': 'bool'})
+        res = a['res'] if a['res']['k'] == 'none' and rnd.random() < 0.8 else (none if rnd.random() < 0.1 else _vary(rnd, a['res']) if a['res']['k'] != 'none' else {'k': 'bool'})
+        return {'k': 'command', 'arg': arg, 'res': res}
     if k == 'struct':
         names = [m['n'] for m in a['mem']]
         opt = sorted(n for n in names if (n in a['opt']) != (rnd.random() < 0.25))
@@ -181,7 +196,8 @@ def _kids(r):
     # equiv / alias: the same examination of the element types
     dt = r['dt']
     subs = {'array': lambda: [dt['el']], 'tuple': lambda: dt['els'],
-            'struct': lambda: [m['t'] for m in dt['mem']]}.get(dt['k'], lambda: [])()
+            'struct': lambda: [m['t'] for m in dt['mem']],
+            'command': lambda: [x for x in (dt['arg'], dt['res']) if x['k'] != 'none']}.get(dt['k'], lambda: [])()
     res = []
     for sdt in subs:
         res += [x for x in dc.equiv_records(sdt, [], {'via': 'element'}) if x['kind'] == r['kind']]
@@ -198,6 +214,8 @@ def _tk(dt):
         return 'struct(%s;%d)' % (','.join(_tk(m['t']) for m in dt['mem']), len(dt['opt']))
     if k == 'string' and dt['maxc'] == dc.NOLIM and dt['minc'] > 0:
         return 'string-open'
+    if k == 'command':
+        return 'command(%s->%s)' % (_tk(dt['arg']), _tk(dt['res']))
     return k
 
 
